@@ -775,6 +775,35 @@ func muxChainCtor(c *core.Ctx, rule string, f *flow.Func) {
 		return
 	}
 	parent, child := names[0], names[1]
+	// the chain is modelled as NewIPFilters / Append / append steps; a filter slice that is
+	// allocated with make, filled by copy or by stores through an index is a form this rule does
+	// not follow (the length arithmetic decides emptiness there)
+	var unmodelled ast.Node
+	isFilterSlice := func(e ast.Expr) bool {
+		tv, ok := f.Info.Types[e]
+		return ok && tv.Type != nil && strings.HasSuffix(tv.Type.String(), "[]*"+Mod+"pkg/util/ipfilter.IPFilter")
+	}
+	ast.Inspect(f.Body, func(n ast.Node) bool {
+		switch x := n.(type) {
+		case *ast.CallExpr:
+			if b, ok := f.Callee(x).(*types.Builtin); ok && len(x.Args) > 0 {
+				if (b.Name() == "copy" && isFilterSlice(x.Args[0])) || (b.Name() == "make" && isFilterSlice(x)) {
+					unmodelled = x
+				}
+			}
+		case *ast.AssignStmt:
+			for _, l := range x.Lhs {
+				if ie, ok := ast.Unparen(l).(*ast.IndexExpr); ok && isFilterSlice(ie.X) {
+					unmodelled = x
+				}
+			}
+		}
+		return true
+	})
+	if unmodelled != nil {
+		c.Undecide(rule, cons+"|copies parent filters, appends child filter", pos(c, unmodelled), "the filter slice is built with make / copy / stores through an index: this form of the chain constructor is not followed")
+		return
+	}
 	vf := newMuxFlow([]*flow.Func{f})
 	isParam := func(e ast.Expr, p *ast.Ident) bool {
 		return vf.allPaths(e, false, func(o types.Object) bool { return o == f.Info.Defs[p] })
